@@ -362,11 +362,78 @@ func runC05(c *Ctx) {
 		cs.check(r, c05Keys, c, "C05")
 		cs.deleteRange(r, c05Keys, c)
 	}
+	// DeleteRange over exactly k x (batch size) live keys and its neighbours: the deletes are committed in batches
+	c05BatchBoundaries(c)
 	// the excluded point of the prefix-free hypothesis: keys containing NUL (the API accepts them)
 	{
 		keys := []string{"a", "b"}
 		cs := buildC05Case(r, 4, "nul", keys, c)
 		cs.nulCheck(keys, c)
+	}
+}
+
+// c05BatchBoundaries: a parent version holds N keys; at its child DeleteRange removes an interval holding
+// exactly M of them, M around multiples of the batch size; afterwards exactly those M read as deleted at the
+// child, the rest and the parent are untouched, and listings agree with the point reads.
+func c05BatchBoundaries(c *Ctx) {
+	sizes := []int{999, 1000, 1001, 2000}
+	if c.Thorough {
+		sizes = append(sizes, 1, 1999, 2001, 3000)
+	}
+	for _, m := range sizes {
+		root := NewRepo()
+		name := fmt.Sprintf("bb%d", m)
+		NewInstance(root, "keyvalue", name, nil)
+		data, err := datastore.GetDataByUUIDName(dvid.UUID(root), dvid.InstanceName(name))
+		if err != nil {
+			c.Report("H", "C05 setup", "cannot get instance", err.Error())
+			return
+		}
+		store, _ := datastore.GetOrderedKeyValueDB(data)
+		_, v0, _ := datastore.MatchingUUID(root)
+		ctx0 := datastore.NewVersionedCtx(data, v0)
+		total := m + 7
+		key := func(i int) string { return fmt.Sprintf("k%06d", i) }
+		for i := 0; i < total; i++ {
+			tk, _ := keyvalue.NewTKey(key(i))
+			store.Put(ctx0, tk, []byte(fmt.Sprintf("v%d", i)))
+		}
+		Commit(root)
+		child, _ := NewVersion(root)
+		_, v1, _ := datastore.MatchingUUID(child)
+		ctx1 := datastore.NewVersionedCtx(data, v1)
+		lo, _ := keyvalue.NewTKey(key(3))
+		hi, _ := keyvalue.NewTKey(key(3 + m - 1))
+		derr := store.DeleteRange(ctx1, lo, hi)
+		c.Eval(fmt.Sprintf("DeleteRange over %d live keys", m), true)
+		c.Count("DeleteRange at a batch boundary size")
+		if derr != nil {
+			c.Report("O", "C05 DeleteRange error", "DeleteRange failed on readable keys", fmt.Sprintf("%d keys: %v", m, derr))
+			continue
+		}
+		survivors, wrong := 0, ""
+		for i := 0; i < total; i++ {
+			tk, _ := keyvalue.NewTKey(key(i))
+			v, _ := store.Get(ctx1, tk)
+			inside := i >= 3 && i < 3+m
+			if inside && v != nil {
+				survivors++
+				if wrong == "" {
+					wrong = fmt.Sprintf("key %s still reads %q at the child", key(i), v)
+				}
+			}
+			if !inside && string(v) != fmt.Sprintf("v%d", i) {
+				wrong = fmt.Sprintf("key %s outside the interval reads %q at the child", key(i), v)
+			}
+			if p, _ := store.Get(ctx0, tk); string(p) != fmt.Sprintf("v%d", i) {
+				wrong = fmt.Sprintf("key %s reads %q at the parent", key(i), p)
+			}
+		}
+		keys, _ := store.KeysInRange(ctx1, lo, hi)
+		if survivors > 0 || wrong != "" || len(keys) != 0 {
+			c.Report("O", "C05 DeleteRange key-survives", "a key inside a deleted range is still readable at that version",
+				fmt.Sprintf("parent holds %d keys k000000..; DeleteRange [%s,%s] (%d live keys) at its child: %d keys of the interval survive, KeysInRange lists %d; %s", total, key(3), key(3+m-1), m, survivors, len(keys), wrong))
+		}
 	}
 }
 
